@@ -149,10 +149,11 @@ func checkIter(r *vk.Run, c IterCase) *vk.Fail {
 type item struct{ N int }
 
 type GroupCase struct {
-	Len  int    `json:"len"`
-	N    int    `json:"n"`
-	Elem string `json:"elem"` // string | int | struct | ptr
-	Form string `json:"form"` // slice | ptr-slice | ptr-array | array
+	Len   int    `json:"len"`
+	N     int    `json:"n"`
+	Elem  string `json:"elem"`            // string | int | struct | ptr
+	Form  string `json:"form"`            // slice | ptr-slice | ptr-array | array
+	Spare int    `json:"spare,omitempty"` // extra capacity behind the slice, filled with stale elements that are NOT part of xs
 }
 
 var arrayTypes = map[string]reflect.Type{
@@ -162,22 +163,29 @@ var arrayTypes = map[string]reflect.Type{
 // build constructs the sequence and the flat list of its elements as interface values.
 func (c GroupCase) build() (seq interface{}, flat []interface{}) {
 	et := arrayTypes[c.Elem]
-	sl := reflect.MakeSlice(reflect.SliceOf(et), c.Len, c.Len)
-	for i := 0; i < c.Len; i++ {
+	full := reflect.MakeSlice(reflect.SliceOf(et), c.Len+c.Spare, c.Len+c.Spare)
+	for i := 0; i < c.Len+c.Spare; i++ {
+		k := i
+		if i >= c.Len {
+			k = 9000 + i // stale element in the spare capacity
+		}
 		var v reflect.Value
 		switch c.Elem {
 		case "string":
-			v = reflect.ValueOf(fmt.Sprintf("e%d", i))
+			v = reflect.ValueOf(fmt.Sprintf("e%d", k))
 		case "int":
-			v = reflect.ValueOf(i)
+			v = reflect.ValueOf(k)
 		case "struct":
-			v = reflect.ValueOf(item{i})
+			v = reflect.ValueOf(item{k})
 		default:
-			v = reflect.ValueOf(&item{i})
+			v = reflect.ValueOf(&item{k})
 		}
-		sl.Index(i).Set(v)
-		flat = append(flat, v.Interface())
+		full.Index(i).Set(v)
+		if i < c.Len {
+			flat = append(flat, v.Interface())
+		}
 	}
+	sl := full.Slice(0, c.Len) // len c.Len, cap c.Len+c.Spare
 	switch c.Form {
 	case "slice":
 		return sl.Interface(), flat
@@ -476,7 +484,7 @@ func checkLen(r *vk.Run, c LenCase) *vk.Fail {
 
 // ---- the test ----------------------------------------------------------------------
 
-const rule = "range/between/until: (E) all a, b, n in [-8,8] plus every combination of the int extremes {MinInt, MinInt+1, -1, 0, 1, MaxInt-1, MaxInt} in every argument position; (R) random ints. The oracle walks the iterator next to the interval computed with math/big for at most 64 steps (so termination is decided by 'exhausted exactly when the model is', never by running 2^63 steps), then re-runs finished cases through a template for loop. groupBy: (E) lengths 0..40 x n in [-2,12] x element types {string,int,struct,pointer} x forms {slice, pointer to slice, pointer to array, array}; both shipped implementations; partition laws (concatenation = input, <= n groups, no empty group, all but the last of equal size, last not larger) + error for n<=0 and for non-sequences; small cases also through a nested template loop. len: lengths 0..6 of string/slice/array/map and pointers to them, directly and through a template. Non-trivial = empty or negative or extreme interval; len not divisible by n, len <= n or non-slice form; non-slice or empty len argument. Distinct by call."
+const rule = "range/between/until: (E) all a, b, n in [-8,8] plus every combination of the int extremes {MinInt, MinInt+1, -1, 0, 1, MaxInt-1, MaxInt} in every argument position; (R) random ints. The oracle walks the iterator next to the interval computed with math/big for at most 64 steps (so termination is decided by 'exhausted exactly when the model is', never by running 2^63 steps), then re-runs finished cases through a template for loop. groupBy: (E) lengths 0..40 x n in [-2,12] x element types {string,int,struct,pointer} x forms {slice, pointer to slice, pointer to array, array} x spare capacity behind the slice {0,1,5} filled with stale elements; both shipped implementations; partition laws (concatenation = input, <= n groups, no empty group, all but the last of equal size, last not larger) + error for n<=0 and for non-sequences; small cases also through a nested template loop. len: lengths 0..6 of string/slice/array/map and pointers to them, directly and through a template. Non-trivial = empty or negative or extreme interval; len not divisible by n, len <= n or non-slice form; non-slice or empty len argument. Distinct by call."
 
 func setup(t *testing.T) *vk.Run {
 	r := vk.Start(t, "C19", rule,
@@ -494,7 +502,7 @@ func setup(t *testing.T) *vk.Run {
 		if f := vk.Decode(raw, &c); f != nil {
 			return f
 		}
-		if arrayTypes[c.Elem] == nil || c.Len < 0 || c.Len > 10000 {
+		if arrayTypes[c.Elem] == nil || c.Len < 0 || c.Len > 10000 || c.Spare < 0 || c.Spare > 1000 {
 			return &vk.Fail{Kind: "decode", Msg: "bad group case"}
 		}
 		return checkGroup(r, c)
@@ -561,14 +569,16 @@ func TestProp(t *testing.T) {
 	maxLen := r.Pick(24, 40)
 	elems := []string{"string", "int", "struct", "ptr"}
 	forms := []string{"slice", "ptr-slice", "ptr-array", "array"}
-	total := int64(maxLen+1) * 15 * int64(len(elems)*len(forms))
-	r.Subspace(fmt.Sprintf("groupBy: lengths 0..%d x n in [-2,12] x 4 element types x 4 forms, both implementations", maxLen), total, true)
+	total := int64(maxLen+1) * 15 * int64(len(elems)*len(forms)) * 3
+	r.Subspace(fmt.Sprintf("groupBy: lengths 0..%d x n in [-2,12] x 4 element types x 4 forms x spare capacity {0,1,5}, both implementations", maxLen), total, true)
 	r.Parallel(total, 0, func(i int64) {
+		spare := []int{0, 1, 5}[i%3]
+		i /= 3
 		f := forms[i%4]
 		e := elems[(i/4)%4]
 		nn := int((i/16)%15) - 2
 		l := int(i / 16 / 15)
-		r.Check(checkGroup(r, GroupCase{Len: l, N: nn, Elem: e, Form: f}))
+		r.Check(checkGroup(r, GroupCase{Len: l, N: nn, Elem: e, Form: f, Spare: spare}))
 	})
 	for _, k := range []string{"int", "string", "map", "struct", "nil", "nil-ptr-slice", "func", "bool", "float"} {
 		r.Check(checkNonSeq(r, NonSeqCase{Kind: k}))
@@ -604,6 +614,6 @@ func TestProp(t *testing.T) {
 	})
 	r.Rapid("groupBy", r.Pick(3000, 40000), func(t *rapid.T) *vk.Fail {
 		return checkGroup(r, GroupCase{Len: rapid.IntRange(0, 300).Draw(t, "len"), N: rapid.IntRange(-3, 320).Draw(t, "n"),
-			Elem: rapid.SampledFrom(elems).Draw(t, "elem"), Form: rapid.SampledFrom(forms).Draw(t, "form")})
+			Elem: rapid.SampledFrom(elems).Draw(t, "elem"), Form: rapid.SampledFrom(forms).Draw(t, "form"), Spare: rapid.IntRange(0, 9).Draw(t, "spare")})
 	})
 }
